@@ -187,7 +187,12 @@ LFOR:
 				} else {
 					p.parseErr("expect , or }")
 				}
+			default:
+				p.parseErr("expect , or } or =")
 			}
+		default:
+			// includes end of input: without this the loop never terminates
+			p.parseErr("not expect " + token.Value(p.tk.T))
 		}
 	}
 	p.expect(token.Semi)
